@@ -55,7 +55,19 @@ class MyLTV(pp.module.LTV):
         return self._c1[..., self._t, :]
 
 
-def problem(seed, nb, ns, nc, T, ltv, tvq, cross, condq, has_c1):
+TV_ALL = ("A", "B", "c1")
+
+
+def tv_of(case):
+    """which of A, B, c1 of an LTV case really vary with time (and are overridden by the system class): all of them for half of the
+    LTV cases; otherwise a proper subset - the other matrices are the stock constant LTI properties (an LTV system need not vary
+    in every matrix; code that decides 'time-invariant' from ONE of them reuses a stale matrix for the others - seed C14h)"""
+    if not case["ltv"]:
+        return TV_ALL
+    return (TV_ALL, TV_ALL, ("B", "c1"), ("A",), ("B",), ("A", "c1"))[tu.crc(case, "tv") % 6]
+
+
+def problem(seed, nb, ns, nc, T, ltv, tvq, cross, condq, has_c1, tv=TV_ALL):
     rs = np.random.RandomState(seed)
     nsc = ns + nc
     def stable(M):
@@ -82,13 +94,41 @@ def problem(seed, nb, ns, nc, T, ltv, tvq, cross, condq, has_c1):
         p0 = rs.randn(nb, nsc)
         p = np.repeat(p0[:, None], T, 1)
     x0 = rs.randn(nb, ns) * 2
+    if "A" not in tv:
+        A[:, :] = A[:, :1]
+    if "B" not in tv:
+        B[:, :] = B[:, :1]
+    if "c1" not in tv:
+        c1[:, :] = c1[:, :1]
     return {"A": A, "B": B, "c1": c1, "Q": Q, "p": p, "x0": x0, "rs": rs}
 
 
-def make_system(pr, ltv):
+_PART = {}
+
+
+def part_ltv(tv):
+    """an LTV subclass that overrides only the properties named in tv with time-indexed stacks (the docstring recipe); the others
+    are the stock properties returning the constant tensor given to the constructor"""
+    key = tuple(sorted(tv))
+    if key not in _PART:
+        ns_ = {}
+        if "A" in key:
+            ns_["A"] = property(lambda self: self._A[..., self._t, :, :])
+        if "B" in key:
+            ns_["B"] = property(lambda self: self._B[..., self._t, :, :])
+        if "c1" in key:
+            ns_["c1"] = property(lambda self: self._c1[..., self._t, :])
+        _PART[key] = type("PartLTV_" + "_".join(key), (pp.module.LTV,), ns_)
+    return _PART[key]
+
+
+def make_system(pr, ltv, tv=TV_ALL):
     T_ = torch.tensor
     nb, nA, ns, nc = pr["B"].shape
     C = np.tile(np.eye(ns), (nb, nA, 1, 1)); D = np.zeros((nb, nA, ns, nc))
+    if ltv and tuple(tv) != TV_ALL:
+        pick = lambda k: T_(pr[k]) if k in tv else T_(pr[k][:, 0])
+        return part_ltv(tv)(pick("A"), pick("B"), T_(C[:, 0]), T_(D[:, 0]), pick("c1"))
     if ltv:
         return MyLTV(T_(pr["A"]), T_(pr["B"]), T_(C), T_(D), T_(pr["c1"]))
     return pp.module.LTI(T_(pr["A"][:, 0]), T_(pr["B"][:, 0]), T_(C[:, 0]), T_(D[:, 0]), T_(pr["c1"][:, 0]))
@@ -227,8 +267,11 @@ class LQRHist(Sub):
 
     def oracle(self, case, rec):
         nb, ns, nc, T, ltv = case["nb"], case["ns"], case["nc"], case["T"], case["ltv"]
-        pr = problem(case["seed"], nb, ns, nc, T, ltv, case["tvq"], case["cross"], case["condq"], case["c1"])
-        sysm = make_system(pr, ltv)
+        tv = tv_of(case)
+        pr = problem(case["seed"], nb, ns, nc, T, ltv, case["tvq"], case["cross"], case["condq"], case["c1"], tv=tv)
+        sysm = make_system(pr, ltv, tv)
+        if ltv:
+            rec.label("ltv_varies:" + "+".join(tv))
         ops = [list(o) for o in case["ops"]] + [["solve", case["seed"] % 1000, True]]
         if case.get("last_again", False):
             ops.append(["again", case["seed"] % 977, False])
@@ -330,8 +373,11 @@ class MPCLinear(Sub):
 
     def oracle(self, case, rec):
         ns, nc, T, ltv = case["ns"], case["nc"], case["T"], case["ltv"]
-        pr = problem(case["seed"], 1, ns, nc, T, ltv, case["tvq"], case["cross"], case["condq"], case["c1"])
-        sysm = make_system(pr, ltv)
+        tv = tv_of(case)
+        pr = problem(case["seed"], 1, ns, nc, T, ltv, case["tvq"], case["cross"], case["condq"], case["c1"], tv=tv)
+        sysm = make_system(pr, ltv, tv)
+        if ltv:
+            rec.label("ltv_varies:" + "+".join(tv))
         Tn = torch.tensor
         rs = pr["rs"]
         # iteration budget of the stepper: 1 (a single LQR pass before the final one) .. 7; older replay files carry "steps" = budget - 1
